@@ -91,6 +91,35 @@ pub const TAIL_OPS: [OpKind; 7] = [
 ];
 
 fn tail_pass(objs: &[&crate::exec::Dyn], consume: bool) -> Vec<Vec<Answer>> {
+  // Under Miri (100-1000x slower) the final pass is reduced to the calls that
+  // read cached storage: one map and both replay streams, without the
+  // consumer tail (the threads' own streams ran it already).
+  if cfg!(miri) {
+    let ctx = ExecCtx {
+      cb_points: false,
+      consume: false,
+      serial: 0,
+    };
+    let light = [
+      OpKind::Map { columns: true },
+      OpKind::Stream {
+        columns: true,
+        abort_at: None,
+      },
+      OpKind::Stream {
+        columns: false,
+        abort_at: None,
+      },
+    ];
+    return (0..objs.len())
+      .map(|i| {
+        light
+          .iter()
+          .map(|k| exec_op(objs, i, k, &ctx).unwrap_or(Answer::NotRun))
+          .collect()
+      })
+      .collect();
+  }
   let ctx = ExecCtx {
     cb_points: false,
     consume,
